@@ -39,7 +39,7 @@ def local_of(nb) -> str:
 
 
 def counts(tier: str):
-    return (300, 75.0) if tier == 'quick' else (20000, 900.0)
+    return (900, 75.0) if tier == 'quick' else (20000, 900.0)
 
 
 # ------------------------------------------------------------------ reference selector matcher
